@@ -189,7 +189,7 @@ func vfRunHandshake(t *testing.T, spec *vfSpec, res *vfRes) {
 		sim := vfNewSim(t, spec, res)
 		ok := sim.start()
 		estT := sim.net.now()
-		nFault := sim.net.nDrop + sim.net.nDup + sim.net.nDelay
+		nFault := sim.net.faultsHit()
 		res.count("c04_faults_hit", int64(nFault))
 		if !ok {
 			res.violate("C04", "establish/failed/"+spec.XS["role"], "role %s, options A(il=%v zc=%v) B(il=%v zc=%v), faults [%s]: connect calls returned %v / %v", spec.XS["role"], spec.A.IL, spec.A.ZC, spec.B.IL, spec.B.ZC, spec.XS["faults"], sim.connErr[0], sim.connErr[1])
@@ -246,7 +246,7 @@ func vfRunHandshake(t *testing.T, spec *vfSpec, res *vfRes) {
 		w.waitReaders(10 * time.Second)
 		sim.finalLeakCheck()
 		sim.runMonitors(vfMonCfg{})
-		for _, run := range w.runs {
+		for _, run := range w.allRuns() {
 			vfCheckDelivery(res, "C04", run, drained)
 		}
 		res.res.Nontrivial = nFault > 0
